@@ -16,8 +16,16 @@ package natsort
 //@   trusted
 //@   assigns elems(a)
 
+//@ # The order used by every sort (natsort.Strings -> sort.Sort(Order(a)) -> Order.Less) is natsort.Less itself, applied to
+//@ # the two elements: Less is a pure function of its arguments (static pure-funcs), Order.Less returns its value.
+//@ func (Order).Less
+//@   props C20
+//@   requires 0 <= i && i < len(n) && 0 <= j && j < len(n)
+//@   assigns nothing
+//@   ensures result == Less(n[i], n[j])
 //@ func Less
 //@   props C20
+//@   pure
 //@   overflow
 //@   behaviour safety:
 //@     loop 0: invariant 0 <= idx1 && idx1 <= len(str1) && 0 <= idx2 && idx2 <= len(str2)
